@@ -265,22 +265,26 @@ def prepareGroups (inv : F → F) (groups : List (List F × List (List (F × Bas
         if ¬ proof.hasPi then .error .sampling else
         .ok { left := [((1 : F), Base.pi)], right := finalCom ++ [(x3, Base.pi), (v, Base.negG)] }
 
+/-- The MSM of one commitment in `multi_prepare` (`com_data.commitment.as_terms(eval_point_opt)`),
+with its set index and evaluations; `none` = an assertion or index panics. A chopped commitment is
+evaluated at the single point of its point set. -/
+def comMsm (debugAssertions : Bool) (pointSets : List (List F)) (d : CommitmentData ComRef F) :
+    Option (Nat × List (F × Base) × List F) :=
+  match d.com with
+  | .chopped _ _ =>
+    if debugAssertions && d.pointIndices.length != 1 then none else
+    match (pointSets.getD d.setIndex [])[0]? with      -- `point_sets[set_index][0]`
+    | none => none
+    | some x => (asTerms d.com (some x)).map (fun m => (d.setIndex, m, d.evals))
+  | .one _ => (asTerms d.com none).map (fun m => (d.setIndex, m, d.evals))
+
 /-- `kzg/mod.rs: multi_prepare`. `debugAssertions` = whether `debug_assert!` is compiled in. -/
 def multiPrepare (inv : F → F) (debugAssertions : Bool) (queries : List (Query ComRef F F))
     (proof : ProofView F) (x1 x2 x3 x4 : F) : Except VerifierErr (DualMSM F) :=
   match constructIntermediateSets (0 : F) queries with
   | none => .error .dup
   | some (cm, pointSets) =>
-    -- the MSM of every commitment
-    let msmsOpt := cm.mapM (fun d =>
-      match d.com with
-      | .chopped _ _ =>
-        if debugAssertions && d.pointIndices.length != 1 then none else
-        match (pointSets.getD d.setIndex [])[0]? with      -- `point_sets[set_index][0]`
-        | none => none
-        | some x => (asTerms d.com (some x)).map (fun m => (d.setIndex, m, d.evals))
-      | .one _ => (asTerms d.com none).map (fun m => (d.setIndex, m, d.evals)))
-    match msmsOpt with
+    match cm.mapM (comMsm debugAssertions pointSets) with
     | none => .error .panic
     | some msms =>
       let groups := pointSets.zipIdx.map (fun pi => (pi.1, (msms.filter (fun t => t.1 = pi.2)).map (fun t => t.2)))
